@@ -136,7 +136,7 @@ func newYamlMap(key, value *yaml.Node, offsetLine, offsetColumn int, contentLine
 		if ckey != nil {
 			kv := YamlKeyValue{
 				Key:   newYamlNode(ckey, offsetLine, offsetColumn, contentLines, key.Column+2),
-				Value: newYamlNode(child, offsetLine, offsetColumn, contentLines, ckey.Column+2),
+				Value: newYamlNode(child, offsetLine, offsetColumn, contentLines, ckey.Column+1),
 			}
 			ym.Items = append(ym.Items, &kv)
 			ckey = nil
